@@ -397,6 +397,37 @@ def c12(run):
     run.evaluations += s2["strings"]
     report_syntax_mismatches(run, mism2, {"C12"}, "chars")
     run.extra["s2i"] = {"token_sequences": summary["sequences"], "piece_strings": s2["strings"], "panics": summary["panics"] + s2["panics"]}
+    # "evaluation of formulas whose fixed points converge": well-formed formulas with monotone (hence convergent) fixed
+    # points, nested ones included, are evaluated in-process (twice) and through the binary; a panic is a violation here
+    for binders, ck in ((2, 2 if not t else 1), (3, 8 if not t else 2)):
+        pn, cn = mc_nest(run, binders, ck)
+        replay_lang(run, pn, "nested_%d_binders" % binders, {"C12"})
+    sconv = checks_lang_trace.record_formulas(run, 6000 if t else 900, {"C12"}, label="convergent")
+    trc = os.path.join(WORK, run.prop, "rec_convergent", "trace.ndjson")
+    texts = []
+    if os.path.exists(trc):
+        for ln in open(trc):
+            r0 = json.loads(ln)
+            if r0.get("text") and ("#" in r0["text"]):
+                texts.append(r0["text"])
+    rndc = random_for("c12conv")
+    rndc.shuffle(texts)
+
+    def run_conv(text):
+        opts = ["-t"] + (["-m"] if rndc.random() < 0.3 else []) + (["-v"] if rndc.random() < 0.3 else [])
+        rc, out = checks_cli.run_rsbdd(["--evaluate=" + text] + opts, None, timeout=120)
+        return text, opts, rc
+
+    from concurrent.futures import ThreadPoolExecutor as _TPE
+    build_repo_bins()
+    with _TPE(max_workers=NCPU) as ex:
+        conv_results = list(ex.map(run_conv, texts[: (600 if t else 150)]))
+    for text, opts, rc in conv_results:
+        if rc == 101 or rc < 0 and rc != -999 or rc >= 128:
+            run.violation("panic:binary:convergent formula:exit%s" % rc, "rsbdd --evaluate=%r %s ended with status %s" % (text[:200], " ".join(opts), rc),
+                          {"mode": "formula-text", "text": text, "tag": "panic"})
+    run.impl_traces += len(conv_results)
+    run.evaluations += len(conv_results)
     # byte-level inputs in-process
     d = fresh_dir(run.prop, "fuzz")
     tr = os.path.join(d, "trace.ndjson")
